@@ -6,13 +6,13 @@ import NfcVerif.Lemmas.IsoDepLive
 Liveness counterpart of `Lemmas/IsoDepV2.lean` against the ISO/IEC 14443-4 card.  (That every loop ENDS needs no
 card hypothesis any more: `Lemmas/IsoDepV2Term.lean`.)  If the card asks for waiting time with a multiplier `M` in
 1..59, at most `W` times per block with `W * M ≤ max_wtxm_sum`, sends non-empty chained blocks and a response of at
-most 65539 octets, and the script contains `k` faults with `2k ≤ n_retry` (none of them a reader protocol error),
+most 65539 octets, and the script contains `k` faults with `2k ≤ resendMax n_retry` (none of them a reader protocol error),
 every retry loop ends with the block it was waiting for.
 
-The potential is `i + 2k ≤ n + 1` while the block of the round is out and `i + 2k ≤ n` while the retry block is out:
-since repair 0010 the retransmission after R(ACK) is only made while `i ≤ n`, so a block lost on its way TO the card
-costs two counts, both of which must be within the budget (before the repair the second one was free: the bound was
-`2k ≤ n + 1`).  The card-side bookkeeping (`wl`, `xchg_legs`, `Round.Live`, `rx_live_first`, `rx_live_echo`) is the
+With `r = resendMax n` (the count up to which a retransmission after R(ACK) is made, `r ≤ n + 1`) the potential is
+`i + 2k ≤ r + 1` while the block of the round is out and `i + 2k ≤ r` while the retry block is out: a block lost on its way
+TO the card costs two counts (R(NAK), retransmission), and since repair 0010 (`r = n`) both must be within the budget
+(before the repair the second one was free: the bound was `2k ≤ n + 1`).  The card-side bookkeeping (`wl`, `xchg_legs`, `Round.Live`, `rx_live_first`, `rx_live_echo`) is the
 one of `Lemmas/IsoDepLive.lean`.
 -/
 namespace NfcVerif.IsoDep2
@@ -174,7 +174,7 @@ theorem xchgW_live_first (cfg : CardCfg) (W L : Nat) (R : Round) (hR : R.Ok cfg)
 answer is lost (the retry block brings it back) and two when the block itself is lost (retry block, R(ACK),
 retransmission - and the retransmission is only made while `i ≤ n`) -/
 def Pot (R : Round) (n i k : Nat) (out : Bytes) : Prop :=
-  (out = R.req → i + 2 * k ≤ n + 1) ∧ (out ≠ R.req → i + 2 * k ≤ n)
+  (out = R.req → i + 2 * k ≤ resendMax n + 1) ∧ (out ≠ R.req → i + 2 * k ≤ resendMax n)
 
 /-- outcome of a retry loop: it ends well if the faults fit the budget -/
 def LLive (k : Nat) (np pot : Prop) (w' : World Card) (res : Py Bytes) : Prop :=
@@ -184,10 +184,12 @@ theorem blockLoop_live (cfg : CardCfg) (W L : Nat) (R : Round) (hR : R.Ok cfg) (
     (hM : 1 ≤ wtxmMask cfg ∧ wtxmMask cfg ≤ 59) (hWL : W * wtxmMask cfg ≤ L)
     (F n : Nat) (hF : W + 1 ≤ F) :
     ∀ (f i : Nat) (out : Bytes) (w : World Card), First cfg R w.card out →
-      (Em cfg R.post R.B w.card → wl w.card ≤ W) → n + 2 ≤ i + f →
+      (Em cfg R.post R.B w.card → wl w.card ≤ W) → roundsMax n + 1 ≤ i + f →
       LLive (nfaults w.script) (Fault.p ∉ w.script) (Pot R n i (nfaults w.script) out)
         (blockLoop (isoPeer cfg) F L n R.resend R.req R.rty f i out w).1
         (blockLoop (isoPeer cfg) F L n R.resend R.req R.rty f i out w).2 := by
+  have hrm := resendMax_le n
+  obtain ⟨hR1, hR2, _⟩ := roundsMax_ge n
   intro f
   induction f with
   | zero =>
@@ -233,7 +235,7 @@ theorem blockLoop_live (cfg : CardCfg) (W L : Nat) (R : Round) (hR : R.Ok cfg) (
     · -- R(ACK) with the other block number: send the block again (the count is within the budget)
       simp only [if_pos ha]
       intro hnp hpot
-      have hin : ¬ i > n := by have := hpot.2 hne; omega
+      have hin : ¬ i > resendMax n := by have := hpot.2 hne; omega
       rw [if_neg hin]
       have hpot' : Pot R n (i + 1) (nfaults w1.script) R.req :=
         ⟨fun _ => by have := hpot.2 hne; omega, fun h => absurd rfl h⟩
@@ -244,12 +246,12 @@ theorem blockLoop_live (cfg : CardCfg) (W L : Nat) (R : Round) (hR : R.Ok cfg) (
     · exact retry _ hk hst
     · exact fun hnp _ => absurd hnp hnnp
 
-theorem sendChunks_live (cfg : CardCfg) (W F L nNak : Nat) (hF1 : W + 1 ≤ F) (hF2 : nNak + 1 ≤ F)
+theorem sendChunks_live (cfg : CardCfg) (W F L nNak : Nat) (hF1 : W + 1 ≤ F) (hF2 : roundsMax nNak ≤ F)
     (hM : 1 ≤ wtxmMask cfg ∧ wtxmMask cfg ≤ 59) (hWL : W * wtxmMask cfg ≤ L)
     (hW1 : cfg.wtxAck ≤ W) (hW2 : cfg.wtxI ≤ W) (Lg : List Bytes) :
     ∀ (cs : List Bytes) (pni : Nat) (acc : Bytes) (w : World Card), cs ≠ [] → pni < 2 →
       w.card.bn = (pni + 1) % 2 → w.card.rxbuf = acc → w.card.log = Lg →
-      LLive (nfaults w.script) (Fault.p ∉ w.script) (2 * nfaults w.script ≤ nNak)
+      LLive (nfaults w.script) (Fault.p ∉ w.script) (2 * nfaults w.script ≤ resendMax nNak)
         (sendChunks (isoPeer cfg) F L nNak cs pni w).1 (sendChunks (isoPeer cfg) F L nNak cs pni w).2.2 := by
   intro cs
   induction cs with
@@ -315,13 +317,13 @@ theorem sendChunks_live (cfg : CardCfg) (W F L nNak : Nat) (hF1 : W + 1 ≤ F) (
         obtain ⟨h6, h7, h8⟩ := hgood2 h4 (by omega)
         exact ⟨h6, h7, by omega⟩
 
-theorem recvChain_live (cfg : CardCfg) (W F L nAck : Nat) (hF1 : W + 1 ≤ F) (hF2 : nAck + 1 ≤ F)
+theorem recvChain_live (cfg : CardCfg) (W F L nAck : Nat) (hF1 : W + 1 ≤ F) (hF2 : roundsMax nAck ≤ F)
     (hM : 1 ≤ wtxmMask cfg ∧ wtxmMask cfg ≤ 59) (hWL : W * wtxmMask cfg ≤ L)
     (hW : cfg.wtxChain ≤ W) (hchunk : 1 ≤ cfg.chunk) (L' : List Bytes) :
     ∀ (f pni : Nat) (data resp : Bytes) (w : World Card) (T : Bytes) (more : Bool) (inf : Bytes),
       pni < 2 → data = iBlock ((pni + 1) % 2) more inf → (more = true ↔ T ≠ []) → (more = true → inf ≠ []) →
       Done ⟨(pni + 1) % 2, [], T, L'⟩ data w.card → T.length < f → resp.length + T.length ≤ 65539 →
-      LLive (nfaults w.script) (Fault.p ∉ w.script) (2 * nfaults w.script ≤ nAck)
+      LLive (nfaults w.script) (Fault.p ∉ w.script) (2 * nfaults w.script ≤ resendMax nAck)
         (recvChain (isoPeer cfg) F L nAck f pni data resp w).1 (recvChain (isoPeer cfg) F L nAck f pni data resp w).2.2 := by
   intro f
   induction f with
@@ -395,10 +397,10 @@ theorem exchangeCmd_live (cfg : CardCfg) (W F : Nat) (pcd : Pcd) (cmd : Bytes) (
     (hchunk : 1 ≤ cfg.chunk) (hW1 : cfg.wtxAck ≤ W) (hW2 : cfg.wtxI ≤ W) (hW3 : cfg.wtxChain ≤ W)
     (hM : 1 ≤ wtxmMask cfg ∧ wtxmMask cfg ≤ 59) (hWL : W * wtxmMask cfg ≤ pcd.wlim)
     (hrsp : (cfg.app w.card.log.length cmd).length ≤ 65539)
-    (hF1 : W + 1 ≤ F) (hF2 : pcd.nNak + 1 ≤ F) (hF3 : pcd.nAck + 1 ≤ F)
+    (hF1 : W + 1 ≤ F) (hF2 : roundsMax pcd.nNak ≤ F) (hF3 : roundsMax pcd.nAck ≤ F)
     (hF4 : (cfg.app w.card.log.length cmd).length < F) :
     LLive (nfaults w.script) (Fault.p ∉ w.script)
-      (2 * nfaults w.script ≤ pcd.nNak ∧ 2 * nfaults w.script ≤ pcd.nAck)
+      (2 * nfaults w.script ≤ resendMax pcd.nNak ∧ 2 * nfaults w.script ≤ resendMax pcd.nAck)
       (exchangeCmd (isoPeer cfg) F pcd cmd w).1 (exchangeCmd (isoPeer cfg) F pcd cmd w).2.2 := by
   have h0 : ¬ pcd.miu = 0 := by omega
   have h1 : ¬ (pcd.miu < 0 ∨ cmd = []) := by
